@@ -50,7 +50,7 @@ func init() {
 		Race: true,
 		Rule: "One case = one history: layout (plain file | symlink to a file in another directory | k8s AtomicWriter layout), decoder (json|yaml), 1..~14 steps over " +
 			"{in-place truncate+rewrite in 1..6 pieces, in-place rewrite of the same byte length that restores the previous mtime or sets a fixed epoch mtime (cp -p / rsync --inplace -t; pwrite or O_TRUNC), write-temp+rename-over, k8s swap (with/without removing the old dir, file or link first), symlink swap (same/new dir), " +
-			"delete+recreate (in place or renamed in), identical bytes (in place and atomic), malformed or empty content, revert to the last good bytes, sync point, gate (watcher held between its read and its report/watch repair while 1-2 steps run)} " +
+			"delete+recreate (in place or renamed in), identical bytes (in place and atomic), malformed or empty content (incl. well-formed content rejected by a text-unmarshalable field with an error wrapping fs.ErrNotExist), revert to the last good bytes, sync point, gate (watcher held between its read and its report/watch repair while 1-2 steps run)} " +
 			"with seeded pauses (none, yield, 20us..50ms) and a seeded delay table on the file.read hook. A history is distinct by (layout, decoder, step-kind sequence with identical/revert/malformed/piece-count/variant marks) " +
 			"and non-trivial when it has at least one content-changing step and the watcher was observed re-reading the file at least once. " +
 			"Plus one scripted fault sequence in the first shard (first four in thorough): the watcher is stalled at the file.read hook, 2 x max_queued_events create+remove pairs overflow the inotify queue " +
@@ -67,10 +67,10 @@ func init() {
 		MinCounters: map[string]map[string]int64{
 			"quick": {"final_valid_converged": 1200, "final_invalid_error_seen": 600, "identical_windows_judged": 500, "syncs_passed": 1800,
 				"release_checked": 3500, "hook_reads": 20000, "gates_held": 1500, "probe_selftest_ok": 300, "admissible_view_judged": 300, "fd_audits_ok": 3500,
-				"queue_overflow_confirmed": 1, "keep_mtime_same_length_rewrites": 800},
+				"queue_overflow_confirmed": 1, "keep_mtime_same_length_rewrites": 800, "final_invalid_decoder_notexist_error_seen": 40},
 			"thorough": {"final_valid_converged": 20000, "final_invalid_error_seen": 10000, "identical_windows_judged": 9000, "syncs_passed": 30000,
 				"release_checked": 60000, "hook_reads": 300000, "gates_held": 25000, "probe_selftest_ok": 5000, "admissible_view_judged": 5000, "fd_audits_ok": 60000,
-				"queue_overflow_confirmed": 3, "keep_mtime_same_length_rewrites": 15000},
+				"queue_overflow_confirmed": 3, "keep_mtime_same_length_rewrites": 15000, "final_invalid_decoder_notexist_error_seen": 800},
 		},
 		Plan: func(tier string) fw.Plan {
 			if tier == "thorough" {
@@ -837,6 +837,11 @@ func (r *c17Run) execute() {
 		} else if !valid {
 			mark += "!"
 		}
+		if h.Contents[nc].Kind == "malformed:decoder-notexist" {
+			// the decoder's error wraps fs.ErrNotExist although the file exists
+			mark += "notexist"
+			w.Count("steps_decoder_error_wrapping_notexist", 1)
+		}
 		r.executed = append(r.executed, mark)
 		cur = nc
 		contentOps++
@@ -910,6 +915,9 @@ func (r *c17Run) execute() {
 			return
 		}
 		w.Count("final_invalid_error_seen", 1)
+		if h.Contents[cur].Kind == "malformed:decoder-notexist" {
+			w.Count("final_invalid_decoder_notexist_error_seen", 1)
+		}
 		judgeIdentical("end of history")
 		r.flush()
 		r.mu.Lock()
